@@ -13,7 +13,7 @@ import random
 
 I64_MAX = 2**63 - 1
 FAULTS = ["garbage", "altbal", "altcid", "altlock", "wrongtype", "oldstate", "otherkey", "wrongbf", "identity", "smallorder", "swapbal", "altslot2", "otherbf"]
-REVKINDS = ["newstate", "wrongbf", "otherchan", "bothwrong", "laterindex"]
+REVKINDS = ["newstate", "wrongbf", "otherchan", "bothwrong", "laterindex", "shiftedbf"]
 
 
 def scripts_from_walks(walks, scale):
